@@ -574,7 +574,10 @@ class TabularCPD(DiscreteFactor):
                         card_map[var] for var in new_order
                     ]
                     super(TabularCPD, self).__init__(
-                        variables, cardinality, new_values.flatten()
+                        variables,
+                        cardinality,
+                        new_values.flatten(),
+                        state_names={var: self.state_names[var] for var in variables},
                     )
                     return self.get_values()
                 else:
